@@ -80,7 +80,8 @@ def check_handler_dict_translated(ctx, rule_translated: str | None, rule_fresh: 
         # single-assignment locals that derive from the rename history
         hist = {nm for nm, ds in db.local_defs(nf).items() if any(getattr(d, "value", None) is not None and ("_rename_history" in src(d.value) or "rename_map" in src(d.value).lower() or "map_outputs" in src(d.value)) for d in ds)}
         for _ in range(2):
-            hist |= {nm for nm, ds in db.local_defs(nf).items() if any(getattr(d, "value", None) is not None and any(isinstance(x, ast.Name) and x.id in hist for x in ast.walk(d.value)) for d in ds)}
+            hist |= {nm for nm, ds in db.local_defs(nf).items() if nm != rp and any(getattr(d, "value", None) is not None and any(isinstance(x, ast.Name) and x.id in hist for x in ast.walk(d.value)) for d in ds)}
+        hist.discard(rp)  # the response itself is what has to be translated: each of its definitions is judged on its own
         own, untranslated = [], []
         for r in rets:
             for d, v in defs_reaching(ncfg, rd, r, r.ast.value.id):
